@@ -14,14 +14,15 @@ type histX struct {
 	Cmds       []string // abstract symbols, for samples and fingerprints
 	Discipline int      // 0 lock-step, 1 one write, 2 arbitrary segmentation
 	Quit       bool
+	SlowCB     int // 0 none; a backend callback takes longer than ReadTimeout: 1 Data, 2 Mail, 3 Rcpt
 }
 
 var histAlphabet = []string{
 	"HELO", "EHLO", "LHLO", "EHLO-noarg", "EHLO-lower",
 	"MAIL", "MAIL-r5", "MAIL-r4", "MAIL-pe", "MAIL-bad", "MAIL-null", "MAIL-size", "MAIL-unkparam", "MAIL-lower",
 	"RCPT", "RCPT-r5", "RCPT-r4", "RCPT-bad", "RCPT-lower",
-	"DATA", "DATA-arg", "DATA-reject",
-	"BDAT", "BDAT-last", "BDAT-0-last", "BDAT-0", "BDAT-bad", "BDAT-last-reject",
+	"DATA", "DATA-arg", "DATA-reject", "DATA-early",
+	"BDAT", "BDAT-last", "BDAT-0-last", "BDAT-0", "BDAT-bad", "BDAT-last-reject", "BDAT-last-early", "BDAT-early",
 	"RSET", "NOOP", "VRFY", "AUTH", "STARTTLS", "QUIT-mid", "XYZZY", "HELP", "EMPTY",
 	"CTRL-verb", "CTRL-helo", "CTRL-mail", "CTRL-rcpt", "BINARY",
 	"AUTH-ir", "AUTH-2step", "AUTH-cancel", "AUTH-bad64",
@@ -103,13 +104,13 @@ func genHistory(t *Tape, sc *Scenario, prop string) *histX {
 			case !greeted:
 				sym = helo
 			case xfer:
-				sym = []string{"BDAT", "BDAT-last", "BDAT-last", "RSET", "MAIL", "BDAT-0-last", "BDAT-last-reject", "EHLO"}[t.Intn(8)]
+				sym = []string{"BDAT", "BDAT-last", "BDAT-last", "RSET", "MAIL", "BDAT-0-last", "BDAT-last-reject", "EHLO", "BDAT-last-early", "BDAT-early"}[t.Intn(10)]
 			case !mail:
 				sym = []string{"MAIL", "MAIL", "MAIL", "MAIL-r5", "MAIL-size", "NOOP", "MAIL-null"}[t.Intn(7)]
 			case rcpt == 0:
 				sym = []string{"RCPT", "RCPT", "RCPT", "RCPT-r5", "RCPT-r4", "DATA"}[t.Intn(6)]
 			default:
-				sym = []string{"DATA", "DATA", "BDAT", "BDAT", "BDAT-last", "RCPT", "RCPT", "RCPT-r5", "DATA-reject", "RSET", "BDAT-0"}[t.Intn(11)]
+				sym = []string{"DATA", "DATA", "BDAT", "BDAT", "BDAT-last", "RCPT", "RCPT", "RCPT-r5", "DATA-reject", "RSET", "BDAT-0", "BDAT-last-early", "DATA-early"}[t.Intn(13)]
 			}
 		}
 		if sym == "EHLO" || sym == "LHLO" || sym == "HELO" {
@@ -187,13 +188,16 @@ func genHistory(t *Tape, sc *Scenario, prop string) *histX {
 			add(kRcpt, fmt.Sprintf("RCPT TO:<r4-r%d@b.example>", uid))
 		case "RCPT-bad":
 			add(kRcpt, []string{"RCPT TO:<bad", "RCPT FROM:<a@b.example>", "RCPT TO:", "RCPT TO:<a b@c>"}[t.Intn(4)])
-		case "DATA", "DATA-reject":
+		case "DATA", "DATA-reject", "DATA-early":
 			add(kData, "DATA")
 			verdict := "ok"
 			if sym == "DATA-reject" {
 				verdict = fmt.Sprintf("E-%d", uid)
 			}
 			body := fmt.Sprintf("msg-%d verdict:%s;\r\n", uid, verdict)
+			if sym == "DATA-early" {
+				body = fmt.Sprintf("msg-%d early verdict:E-%d;\r\n", uid, uid) + strings.Repeat("the rest of a message that was refused early\r\n", 15)
+			}
 			if t.Bool() {
 				body += "second line\r\n"
 			}
@@ -209,13 +213,16 @@ func genHistory(t *Tape, sc *Scenario, prop string) *histX {
 			}
 		case "DATA-arg":
 			add(kData, "DATA now")
-		case "BDAT", "BDAT-last", "BDAT-0-last", "BDAT-0", "BDAT-last-reject":
+		case "BDAT", "BDAT-last", "BDAT-0-last", "BDAT-0", "BDAT-last-reject", "BDAT-last-early", "BDAT-early":
 			last := strings.Contains(sym, "last")
 			verdict := "ok"
 			if sym == "BDAT-last-reject" {
 				verdict = fmt.Sprintf("E-%d", uid)
 			}
 			payload := fmt.Sprintf("msg-%d verdict:%s;\r\n", uid, verdict)
+			if strings.HasSuffix(sym, "-early") {
+				payload = fmt.Sprintf("msg-%d early verdict:E-%d;\r\n", uid, uid) + strings.Repeat("the rest of a chunk that was refused early\r\n", 15)
+			}
 			if strings.Contains(sym, "-0") {
 				payload = ""
 			}
@@ -236,8 +243,8 @@ func genHistory(t *Tape, sc *Scenario, prop string) *histX {
 			}
 			if rcpt > 0 {
 				xfer = !last
-				if last {
-					mail, rcpt = false, 0
+				if last || strings.HasSuffix(sym, "-early") {
+					mail, rcpt, xfer = false, 0, false
 				}
 			}
 		case "BDAT-bad":
@@ -335,6 +342,25 @@ func genHistory(t *Tape, sc *Scenario, prop string) *histX {
 	}
 	cs := ConnScript{Lat: drawLat(t), SrvCaps: drawCaps(t), Steps: steps}
 	cs.defaults()
+	if t.Chance(1, 12) {
+		// a backend that takes longer than ReadTimeout over a message, a sender or a
+		// recipient (no WriteTimeout is configured): the client waits, no reply may get lost
+		x.SlowCB = 1 + t.Intn(3)
+		sc.Srv.ReadTO, sc.Srv.WriteTO = 10*time.Minute, 0
+		b := &sc.BE.Conns[0]
+		switch x.SlowCB {
+		case 1:
+			for i := range b.Data {
+				b.Data[i].ParkAfter = 11 * time.Minute
+			}
+		case 2:
+			b.ParkMail = 11 * time.Minute
+		default:
+			b.ParkRcpt = 11 * time.Minute
+		}
+		cs.AwaitTO = 45 * time.Minute
+		cs.IdleEnd = 45 * time.Minute
+	}
 	sc.Conns = []ConnScript{cs}
 	sc.Strata = []string{fmt.Sprintf("discipline%d/lmtp%v", x.Discipline, sc.Srv.LMTP)}
 	return x
@@ -424,6 +450,7 @@ func checkC03(sc *Scenario, h *History) []Violation {
 	fuzzy := false     // a second MAIL inside a transaction: the statement leaves it open
 	needReset := false // a transaction ended and the backend has not seen Reset since its last envelope callback
 	resetSeen := false // a Reset happened since the last envelope callback
+	endedUnit := -1    // the unit whose reply ended the transaction that needs the Reset
 	for _, it := range items {
 		if it.ev != nil {
 			e := it.ev
@@ -489,10 +516,17 @@ func checkC03(sc *Scenario, h *History) []Violation {
 		if !first {
 			continue
 		}
+		if needReset && it.unit != endedUnit {
+			// the transaction end is signalled when it happens, not when the backend is
+			// next needed: the Reset precedes the answer to whatever command comes next
+			v("C03.no-reset", "the transaction ended by %q had not been signalled by Reset when the next command %q was answered %s", clip(w.Units[endedUnit].Line, 40), clip(u.Line, 40), r)
+			needReset = false
+		}
 		end := func() {
 			// a transaction end: the envelope is gone and a Reset is due before the next envelope callback
 			if (mail || nrcpt > 0 || u.Kind == "body" || u.Verb == "BDAT") && !resetSeen {
 				needReset = true
+				endedUnit = it.unit
 			}
 			mail, nrcpt, fuzzy = false, 0, false
 		}
@@ -597,6 +631,20 @@ func classifyHist(sc *Scenario, h *History, st *Stats) string {
 			break
 		}
 	}
+	for _, e := range evs {
+		if e.EarlyReturn {
+			st.Probes["backend_returns_early_with_message_unread"]++
+			break
+		}
+	}
+	if x.SlowCB > 0 {
+		for _, e := range h.Events {
+			if e.Done && e.End-e.Begin > int64(10*time.Minute) {
+				st.Faults["backend_callback_slower_than_ReadTimeout"]++
+				break
+			}
+		}
+	}
 	if h.Conns[0].SrvCloseSeq >= 0 && !x.Quit {
 		st.Probes["server_closed_without_quit"]++
 	}
@@ -628,7 +676,7 @@ func init() {
 		},
 		Real: histReal, Stub: histStub,
 		Assumptions: []string{"a second MAIL inside a transaction and the placement of VRFY/NOOP are not judged", "'signalled by Reset' is judged as: at least one Reset between a transaction end and the next envelope callback"},
-		Required:    []string{"stale_delivery_overlaps_next_transfer", "newsession_failed", "several_messages_in_one_history", "auth_exchange_with_334_inside_history"},
+		Required:    []string{"stale_delivery_overlaps_next_transfer", "newsession_failed", "several_messages_in_one_history", "auth_exchange_with_334_inside_history", "backend_callback_slower_than_ReadTimeout", "backend_returns_early_with_message_unread"},
 		QuickRuns:   250000, ThoroughRuns: 6000000,
 	})
 }
